@@ -194,8 +194,23 @@ pub fn invalid_utf8(rng: &mut Rng) -> Vec<u8> {
     if rng.chance(1, 4) {
         // a multi-byte character cut short at the very end of the text
         let cut: &[&[u8]] = &[&[0xC3], &[0xE2, 0x82], &[0xE2], &[0xF0, 0x9F, 0x98], &[0xF0, 0x9F], &[0xF0], &[0xDF]];
-        v.truncate(250);
-        v.extend_from_slice(*rng.pick(cut));
+        let c = *rng.pick(cut);
+        // total length: exactly the byte capacity (255) half of the time, else anything
+        let total = if rng.bool() { 255 } else { rng.range(c.len() as i64, 255) as usize };
+        let want = total - c.len();
+        // valid prefix of exactly `want` bytes: whole characters, padded with ASCII
+        let mut pre = String::new();
+        for ch in random_text(rng, 255).chars().chain(std::iter::repeat('\u{20ac}').take(90)) {
+            if pre.len() + ch.len_utf8() > want {
+                break;
+            }
+            pre.push(ch);
+        }
+        while pre.len() < want {
+            pre.push('a');
+        }
+        let mut v = pre.into_bytes();
+        v.extend_from_slice(c);
         return v;
     }
     let pos = if v.is_empty() { 0 } else { rng.usize_below(v.len() + 1) };
